@@ -454,7 +454,9 @@ func NewSecurityManager() *SecurityManager {
 
 // ClientHandshake performs a client-side security handshake on the given stream
 func (sm *SecurityManager) ClientHandshake(ctx context.Context, s *stream.Stream) error {
-	auth := NewAuthenticator(sm.config, s)
+	// per-connection copy: NewAuthenticator stores the ephemeral ECDH key in its config
+	connConfig := *sm.config
+	auth := NewAuthenticator(&connConfig, s)
 	_, err := auth.ClientHandshake(ctx)
 	if err != nil {
 		return err
@@ -466,7 +468,9 @@ func (sm *SecurityManager) ClientHandshake(ctx context.Context, s *stream.Stream
 
 // ServerHandshake performs a server-side security handshake on the given stream
 func (sm *SecurityManager) ServerHandshake(ctx context.Context, s *stream.Stream) error {
-	auth := NewAuthenticator(sm.config, s)
+	// per-connection copy: NewAuthenticator stores the ephemeral ECDH key in its config
+	connConfig := *sm.config
+	auth := NewAuthenticator(&connConfig, s)
 	_, err := auth.ServerHandshake(ctx)
 	if err != nil {
 		return err
